@@ -29,9 +29,9 @@ Inductive dtext := DAbsent | DEmpty | DAuto | DInfinite | DDur (d : Z) | DJunk.
 (* a CIDR-valued key, lexed with netip.ParsePrefix.  IPv4: addr is the 32-bit value. *)
 Inductive ctext := CAbsent | CEmpty | CJunk | CPfx (v4 : bool) (addr bits : N).
 
-(* an RDNSS server, lexed with netip.ParseAddr.  zone = 0: no zone; otherwise the rank of the
-   zone string among the zone strings of the document (order preserving, as Addr.Compare
-   compares zones as strings). *)
+(* an RDNSS server, lexed with netip.ParseAddr.  zone = 0: no zone; otherwise (has a zone) the
+   rank of the zone string among the zone strings of the document.  Since fix f20e750 a zoned
+   server is rejected, so only "zone <> 0" matters. *)
 Inductive atext := AJunk | AAddr (v4 : bool) (addr zone : N).
 
 (* a preference key: "" (or absent), "low", "medium", "high", anything else *)
@@ -228,6 +228,7 @@ Fixpoint rdnss_servers (l : list atext) (auto : bool) (set : list skey) : result
   | AJunk :: _ => Err 60
   | AAddr v4 a z :: t =>
       if v4 || is_4in6 a then Err 61                      (* !ip.Is6() || ip.Is4In6() *)
+      else if N.ltb 0 z then Err 66                       (* ip.Zone() != "" (fix f20e750) *)
       else if N.eqb a 0 && N.eqb z 0 then                 (* ip.IsUnspecified() *)
         if auto then Err 62 else rdnss_servers t true set
       else if existsb (skey_eqb (a, z)) set then Err 63
